@@ -51,6 +51,7 @@ type IdxRec struct {
 
 type IdxFile struct {
 	Num  uint32
+	Data []byte
 	Len  int64
 	Recs []IdxRec
 	Tail int64 // bytes after the last complete record
@@ -70,6 +71,8 @@ type PrimRec struct {
 
 type PrimFile struct {
 	Num   uint32
+	Data  []byte
+	CID   bool
 	Len   int64
 	Recs  []PrimRec
 	ByOff map[int64]int
@@ -173,7 +176,7 @@ func parseEntries(b []byte) ([]Entry, bool) {
 }
 
 func parseIdxFile(num uint32, data []byte) *IdxFile {
-	f := &IdxFile{Num: num, Len: int64(len(data))}
+	f := &IdxFile{Num: num, Data: data, Len: int64(len(data))}
 	var p int64
 	n := int64(len(data))
 	for p < n {
@@ -212,7 +215,7 @@ func parseIdxFile(num uint32, data []byte) *IdxFile {
 }
 
 func parsePrimFile(num uint32, data []byte, cidp bool) *PrimFile {
-	f := &PrimFile{Num: num, Len: int64(len(data)), ByOff: map[int64]int{}}
+	f := &PrimFile{Num: num, Data: data, CID: cidp, Len: int64(len(data)), ByOff: map[int64]int{}}
 	var p int64
 	n := int64(len(data))
 	for p < n {
@@ -262,6 +265,72 @@ func parsePrimFile(num uint32, data []byte, cidp bool) *PrimFile {
 	}
 	f.Tail = n - p
 	return f
+}
+
+// idxRecAt parses the index record whose size prefix is at offset p, independent of
+// what precedes it in the file (the store reads records by position, too).
+func idxRecAt(data []byte, p int64) (*IdxRec, bool) {
+	n := int64(len(data))
+	if p < 0 || p+4 > n {
+		return nil, false
+	}
+	sz := readU32(data[p:])
+	r := &IdxRec{At: p}
+	if sz&D != 0 {
+		r.Deleted = true
+		r.Size = sz ^ D
+		r.Complete = p+4+int64(r.Size) <= n
+		return r, true
+	}
+	r.Size = sz
+	if p+4+int64(sz) > n || sz < 4 {
+		return r, true
+	}
+	r.Complete = true
+	body := data[p+4 : p+4+int64(sz)]
+	r.Bucket = readU32(body)
+	es, ok := parseEntries(body[4:])
+	r.Entries = es
+	r.BadList = !ok
+	return r, true
+}
+
+// primRecAt parses the primary record whose size prefix is at offset p.
+func primRecAt(data []byte, p int64, cidp bool) (*PrimRec, bool) {
+	n := int64(len(data))
+	if p < 0 || p+4 > n {
+		return nil, false
+	}
+	sz := readU32(data[p:])
+	r := &PrimRec{At: p}
+	if sz&D != 0 {
+		r.Deleted = true
+		r.Size = sz ^ D
+		r.Complete = p+4+int64(r.Size) <= n
+		return r, true
+	}
+	r.Size = sz
+	if p+4+int64(sz) > n {
+		return r, true
+	}
+	r.Complete = true
+	body := data[p+4 : p+4+int64(sz)]
+	var d []byte
+	var kn int
+	var err error
+	if cidp {
+		d, kn, err = ParseCID(body)
+	} else {
+		d, kn, err = ParseMultihash(body)
+	}
+	if err != nil {
+		r.BadKey = true
+	} else {
+		r.Digest = append([]byte(nil), d...)
+		r.KeyLen = kn
+		r.Value = append([]byte(nil), body[kn:]...)
+	}
+	return r, true
 }
 
 func parseFree(data []byte) ([]Block, int) {
@@ -425,12 +494,10 @@ func (l *Layout) findIdxRec(pos uint64) (*IdxRec, uint32, string) {
 	if !ok {
 		return nil, fn, fmt.Sprintf("index file %d does not exist", fn)
 	}
-	for i := range f.Recs {
-		if f.Recs[i].At+4 == local {
-			return &f.Recs[i], fn, ""
-		}
+	if r, ok := idxRecAt(f.Data, local-4); ok {
+		return r, fn, ""
 	}
-	return nil, fn, fmt.Sprintf("no record starts at offset %d of index file %d (len %d)", local-4, fn, f.Len)
+	return nil, fn, fmt.Sprintf("offset %d is outside index file %d (len %d)", local-4, fn, f.Len)
 }
 
 // PrimRecAt finds the primary record at an absolute location.
@@ -440,11 +507,10 @@ func (l *Layout) PrimRecAt(off uint64) (*PrimRec, uint32, string) {
 		if !ok {
 			return nil, 0, "primary file missing"
 		}
-		i, ok := f.ByOff[int64(off)]
-		if !ok {
-			return nil, 0, fmt.Sprintf("no record starts at offset %d of the CID primary (len %d)", off, f.Len)
+		if r, ok := primRecAt(f.Data, int64(off), true); ok {
+			return r, 0, ""
 		}
-		return &f.Recs[i], 0, ""
+		return nil, 0, fmt.Sprintf("offset %d is outside the CID primary (len %d)", off, f.Len)
 	}
 	mfs := uint64(l.PH.MaxFileSize)
 	if mfs == 0 {
@@ -456,11 +522,10 @@ func (l *Layout) PrimRecAt(off uint64) (*PrimRec, uint32, string) {
 	if !ok {
 		return nil, fn, fmt.Sprintf("primary file %d does not exist", fn)
 	}
-	i, ok := f.ByOff[local]
-	if !ok {
-		return nil, fn, fmt.Sprintf("no record starts at offset %d of primary file %d (len %d)", local, fn, f.Len)
+	if r, ok := primRecAt(f.Data, local, false); ok {
+		return r, fn, ""
 	}
-	return &f.Recs[i], fn, ""
+	return nil, fn, fmt.Sprintf("offset %d is outside primary file %d (len %d)", local, fn, f.Len)
 }
 
 func bucketOf(digest []byte, bits uint8) uint32 {
